@@ -156,7 +156,11 @@ func DeterministicGenesis(app *elysapp.ElysApp, accs []Acct) (elysapp.GenesisSta
 		Address: authtypes.NewModuleAddress(stakingtypes.BondedPoolName).String(),
 		Coins:   sdk.Coins{sdk.NewCoin(ptypes.Elys, bondAmt)},
 	})
-	bankGenesis := banktypes.NewGenesisState(banktypes.DefaultGenesisState().Params, balances, totalSupply, []banktypes.Metadata{}, []banktypes.SendEnabled{})
+	metas := []banktypes.Metadata{}
+	for _, d := range []string{"uatom", "uelys", "uusdc"} {
+		metas = append(metas, banktypes.Metadata{Base: d, Display: d, Name: d, Symbol: d, DenomUnits: []*banktypes.DenomUnit{{Denom: d, Exponent: 0}}})
+	}
+	bankGenesis := banktypes.NewGenesisState(banktypes.DefaultGenesisState().Params, balances, totalSupply, metas, []banktypes.SendEnabled{})
 	genesisState[banktypes.ModuleName] = app.AppCodec().MustMarshalJSON(bankGenesis)
 
 	vals, err := cmttypes.PB2TM.ValidatorUpdates(initValPowers)
@@ -347,11 +351,22 @@ func (w *World) RunBlock(tm int64, txs [][]byte) *BlockResult {
 func trimStack(b []byte) string {
 	lines := bytes.Split(b, []byte("\n"))
 	keep := [][]byte{}
-	for _, l := range lines {
+	for i, l := range lines {
 		if bytes.Contains(l, []byte("elys-network/elys")) && !bytes.Contains(l, []byte("zz_verif")) {
-			keep = append(keep, bytes.TrimSpace(l))
+			fn := l
+			if j := bytes.LastIndex(fn, []byte("(")); j > 0 {
+				fn = fn[:j]
+			}
+			loc := []byte{}
+			if i+1 < len(lines) {
+				loc = bytes.TrimSpace(lines[i+1])
+				if j := bytes.Index(loc, []byte(" +0x")); j > 0 {
+					loc = loc[:j]
+				}
+			}
+			keep = append(keep, append(append(bytes.TrimSpace(fn), []byte(" @ ")...), loc...))
 		}
-		if len(keep) >= 12 {
+		if len(keep) >= 10 {
 			break
 		}
 	}
